@@ -597,13 +597,20 @@ class Evaluator:
                     stmts = ([s["else"]] if s.get("else") else []) + rest
                     i = 0
                     continue
-                # fork
+                # fork.  When neither branch can leave the function, the two branches are merged right after the `if`
+                # (inside unrolled loops only, where duplicating the continuation would cost 2^n paths; elsewhere the path form is
+                # kept because the print/ordering rules read the branch structure)
+                local_merge = frame.get("in_loop", 0) > 0 and not _contains_return(s.get("then")) and not _contains_return(s.get("else"))
+                if local_merge:
+                    rest_saved, rest = rest, []
                 snap = dict(self.store)
                 snap_locals = dict(frame["locals"])
+                snap_loop = frame.get("in_loop", 0)
                 r1 = self.exec_block_list([s["then"]] + rest, frame, top)
                 st1 = self.store
                 self.store = dict(snap)
                 frame["locals"] = dict(snap_locals)
+                frame["in_loop"] = snap_loop
                 r2 = self.exec_block_list(([s["else"]] if s.get("else") else []) + rest, frame, top)
                 st2 = self.store
                 merged = {}
@@ -614,6 +621,10 @@ class Evaluator:
                     else:
                         merged[loc] = st1.get(loc, st2.get(loc))
                 self.store = merged
+                if local_merge:
+                    stmts = rest_saved
+                    i = 0
+                    continue
                 if r1 is _FALL and r2 is _FALL:
                     return _FALL
                 if top and (r1 is None or r2 is None) and (r1 is _FALL or r2 is _FALL):
@@ -647,12 +658,16 @@ class Evaluator:
                     raise Inconclusive("loop with symbolic condition in " + frame["f"]["name"])
                 if s["n"] >= 64:
                     raise Inconclusive("loop does not terminate within 64 iterations in " + frame["f"]["name"])
-                nxt = [lp["body"]]
+                nxt = [{"k": "loop_enter"}, lp["body"], {"k": "loop_leave"}]
                 if lp.get("inc"):
                     nxt.append({"k": "forinc", "e": lp["inc"]})
                 stmts = nxt + [{"k": "forloop", "s": lp, "n": s["n"] + 1}] + list(stmts[i + 1:])
                 i = 0
                 continue
+            elif k == "loop_enter":
+                frame["in_loop"] = frame.get("in_loop", 0) + 1
+            elif k == "loop_leave":
+                frame["in_loop"] = max(0, frame.get("in_loop", 0) - 1)
             elif k == "forinc":
                 self.eval(s["e"], frame)
             elif k == "rangebind":
@@ -675,7 +690,7 @@ class Evaluator:
                 els = self.range_elements(s, frame)
                 unrolled = []
                 for el in els:
-                    unrolled += [{"k": "rangebind", "var": s["var"], "el": el}, s["body"]]
+                    unrolled += [{"k": "rangebind", "var": s["var"], "el": el}, {"k": "loop_enter"}, s["body"], {"k": "loop_leave"}]
                 stmts = unrolled + list(stmts[i + 1:])
                 i = 0
                 continue
@@ -1828,6 +1843,35 @@ def _exact_in(q, T):
     while n % 2 == 0:
         n //= 2
     return n.bit_length() <= _MANT[T]
+
+
+_RET_CACHE = {}
+
+
+def _contains_return(tree):
+    if tree is None:
+        return False
+    key = id(tree)
+    if key not in _RET_CACHE:
+        found = []
+
+        def rec(n):
+            if found:
+                return
+            if isinstance(n, dict):
+                if n.get("k") == "ret":
+                    found.append(1)
+                    return
+                if n.get("k") == "lambda":
+                    return
+                for v in n.values():
+                    rec(v)
+            elif isinstance(n, list):
+                for v in n:
+                    rec(v)
+        rec(tree)
+        _RET_CACHE[key] = bool(found)
+    return _RET_CACHE[key]
 
 
 def _freeze(v):
